@@ -68,7 +68,18 @@ void vp_writer()
 #endif
     int victim = *it;
     vp_gadd(3, victim);                  // ghost: which value was erased
+    vp_gset(7, vp_g(7) | (victim == 10 ? 1 : victim == 20 ? 2 : victim == 30 ? 4 : 0));   // ghost 7: set of erased values
     w->erase(it);
+#ifdef ERASE_TWO
+    {
+        auto it2 = w->begin();           // ... and the new first element too: a stale second erase of the first victim by another
+        if (it2 != w->end()) {           // writer must not bring this one back (its old neighbour)
+            int victim2 = *it2;
+            vp_gset(7, vp_g(7) | (victim2 == 10 ? 1 : victim2 == 20 ? 2 : victim2 == 30 ? 4 : 0));
+            w->erase(it2);
+        }
+    }
+#endif
 #ifdef PUSH_BACK
     w->push_back(40);
 #endif
@@ -94,11 +105,19 @@ void vp_writer2()
     auto w = g_l->lock_write();
 #if defined(W2_ERASE_FIRST)
     auto it = w->begin();            // both writers may hold an iterator to the same element: erasing it twice must be harmless
+    if (!(it != w->end())) {         // (the other writer may already have emptied the list)
+        vp_cover(2);
+        return;
+    }
     int victim = *it;
     vp_gset(6, victim);
+    vp_point();
+    vp_gset(7, vp_g(7) | (victim == 10 ? 1 : victim == 20 ? 2 : victim == 30 ? 4 : 0));
     w->erase(it);
 #elif defined(W2_EMPLACE)
     w->emplace_front(5);
+#elif defined(W2_PUSH_FRONT)
+    w->push_front(5);
 #else
     w->push_back(40);
 #endif
@@ -120,6 +139,7 @@ void vp_final()
         vp_assert(v > prev, 1210);
         vp_assert(v != erased, 1211);
         vp_assert(vp_g(6) == 0 || v != vp_g(6), 1213);
+        vp_assert(!(vp_g(7) & (v == 10 ? 1 : v == 20 ? 2 : v == 30 ? 4 : 0)), 1214);   // an erased element never comes back
         prev = v;
         cnt++;
         sum += v;
